@@ -42,6 +42,18 @@ type c04Expect struct {
 	OnSQL string   `json:"on_sql"`
 	Rows  []any    `json:"rows"`
 	Equi  bool     `json:"equi"` // ON is a conjunction of equalities
+	// Prelude: a join issued earlier by the same caller in the same process (it may
+	// fail half-way through building its catalog); it must not influence the join under test
+	Prelude string `json:"prelude,omitempty"`
+}
+
+var c04Preludes = []string{
+	"SELECT * FROM p x JOIN p y ON x.id = y.id AND x.`o.q` = y.`o.q`",
+	"SELECT * FROM p x LEFT JOIN p y ON x.`o.q` = y.id",
+	"SELECT * FROM p x PARALLEL JOIN p y ON x.id = y.id AND x.`o.q` = y.`o.q`",
+	"SELECT * FROM p x PARALLEL JOIN p y ON x.id",
+	"SELECT * FROM p x HASH_JOIN p y ON x.id = y.id",
+	"SELECT * FROM p x JOIN p y ON x.id < y.id OR x.`o.q` = y.`o.q`",
 }
 
 var c04Spellings = map[string][]string{
@@ -204,7 +216,14 @@ func genC04(t *rapid.T) *Bundle {
 	typ := rapid.SampledFrom([]string{"inner", "left", "right"}).Draw(t, "join_type")
 	exp := c04Expect{Type: typ, On: on, OnSQL: on.sql(), Equi: on.equi()}
 	exp.Rows = textbookJoin(typ, on, left, right)
-	doc := map[string]any{"t": left, "u": right}
+	doc := map[string]any{"t": left, "u": right, "p": []any{
+		map[string]any{"id": float64(1), "o": map[string]any{"q": float64(1)}},
+		map[string]any{"id": float64(2), "o": "scalar"},
+		map[string]any{"id": float64(3), "o": map[string]any{"q": float64(3)}},
+	}}
+	if rapid.IntRange(0, 2).Draw(t, "with_prelude") == 0 {
+		exp.Prelude = rapid.SampledFrom(c04Preludes).Draw(t, "prelude")
+	}
 	sim := drawSim(t, "")
 	c := oneClientCase("C04", sim, doc, casefmt.Op{Doc: 0, Vars: -1, Query: ""})
 	c.NativeInts = rapid.Bool().Draw(t, "native_ints")
@@ -249,8 +268,13 @@ func evalC04(b *Bundle, r *Runner) []*Violation {
 			c := b.Case
 			c.Sim = sim
 			q := fmt.Sprintf("SELECT * FROM t x %s u y ON %s", sp, exp.OnSQL)
-			c.Clients = []casefmt.Client{{Name: "client0", Ops: []casefmt.Op{{Doc: 0, Vars: -1, Query: q}}}}
-			o := r.Run(&c, parallel)
+			ops := []casefmt.Op{}
+			if exp.Prelude != "" {
+				ops = append(ops, casefmt.Op{Doc: 0, Vars: -1, Query: exp.Prelude})
+			}
+			ops = append(ops, casefmt.Op{Doc: 0, Vars: -1, Query: q})
+			c.Clients = []casefmt.Client{{Name: "client0", Ops: ops}}
+			o := r.Run(&c, parallel || strings.Contains(exp.Prelude, "PARALLEL"))
 			site := "spelling=" + spellingClass(sp)
 			if hv := processHealth(b, o); len(hv) > 0 {
 				for _, v := range hv {
@@ -268,10 +292,13 @@ func evalC04(b *Bundle, r *Runner) []*Violation {
 				}
 				vs = append(vs, mkViolation(b, "DATA_RACE", raceFuncSig(sig), q+"\n"+sig+"\n"+o.RaceTexts[i], o))
 			}
-			if len(o.Ops) != 1 {
-				infra("C04: expected one op observation, got %d", len(o.Ops))
+			if len(o.Ops) != len(ops) {
+				infra("C04: expected %d op observations, got %d", len(ops), len(o.Ops))
 			}
-			op := &o.Ops[0]
+			op := &o.Ops[len(o.Ops)-1]
+			if exp.Prelude != "" {
+				r.Stats.probe("ran_after_a_prelude_join_" + opOutcome(&o.Ops[0]))
+			}
 			if failed(op) {
 				vs = append(vs, mkViolation(b, "JOIN_FAILED", site, fmt.Sprintf("%s\n failed: %s%s", q, op.NewErr, op.ExecErr), o))
 				continue
